@@ -26,6 +26,7 @@ func main() {
 		os.Exit(2)
 	}
 	if *worker {
+		reg.Tier = *tier
 		os.Exit(c.Worker(flag.Args()))
 	}
 	r := ev.New(c.ID, *tier, c.Level)
